@@ -31,8 +31,10 @@ func (mr *memdbReleaser) Release() {
 func (db *DB) newRawIterator(auxm *memDB, auxt tFiles, slice *util.Range, ro *opt.ReadOptions) iterator.Iterator {
 	strict := opt.GetStrict(db.s.o.Options, ro, opt.StrictReader)
 	em, fm := db.getMems()
+	verifGate(db.s, "r:after-mems")
 	v := db.s.version()
 
+	verifGate(db.s, "r:after-version")
 	tableIts := v.getIterators(slice, ro)
 	n := len(tableIts) + len(auxt) + 3
 	its := make([]iterator.Iterator, 0, n)
